@@ -308,7 +308,16 @@ def check_split(ctx, case):
             src = [i for i in holders if gp[g0][i]['Cp']][0]
             T = rng.choice(sorted(gp[g0][src]['Cp']))
             dst = rng.choice([i for i in range(nfiles) if i != src])
-            gp[g0][dst]['Cp'][T] = gp[g0][src]['Cp'][T] + 1.0
+            base_v = gp[g0][src]['Cp'][T]
+            # a visible conflict, or one of a single ulp (two conversions of
+            # one table): heat capacities are compared exactly
+            import math as _m
+            gp[g0][dst]['Cp'][T] = rng.choice([
+                base_v + 1.0, _m.nextafter(base_v, _m.inf),
+                _m.nextafter(base_v, -_m.inf),
+                base_v * (1 + 4e-16) if base_v else 5e-324])
+            if gp[g0][dst]['Cp'][T] == base_v:
+                gp[g0][dst]['Cp'][T] = base_v + 1.0
             r = gp[g0][dst]['range'] or [min(T, tref), max(T, tref)]
             gp[g0][dst]['range'] = [min(r[0], T, tref), max(r[1], T, tref)]
         case = dict(case, conflict_kind=kind)
